@@ -68,6 +68,9 @@ enum Kind {
     Bool(bool),
     Err(u8),
     Fmla(FRes),
+    /// formula whose token stream the text renderer does not understand (PtgMemArea as in =SUM((A1,A2)), PtgRefN, an unknown
+    /// function index): the cached result is still the cell's value
+    FmlaOddTokens(FRes, u8),
 }
 
 fn err_of(code: u8) -> CellErrorType {
@@ -92,6 +95,8 @@ fn kinds() -> Vec<Kind> {
     // cached numbers whose IEEE bytes have 0xFF in exactly one of the two top bytes (the other marks a non-numeric result)
     for x in [1.9375f64, 1.95, 130000.0, -1e308, f64::from_bits(0x00FF_0000_0000_0000)] { v.push(Kind::Fmla(FRes::Num(x))); } v.push(Kind::Fmla(FRes::Str("res".into(), false))); v.push(Kind::Fmla(FRes::Str("r\u{e9}s".into(), true)));
     // the anchor cell of a shared formula / array formula / data table: another record between FORMULA and STRING
+    for w in 0..3u8 { v.push(Kind::FmlaOddTokens(FRes::Num(6.5), w)); }
+    v.push(Kind::FmlaOddTokens(FRes::Bool(true), 0)); v.push(Kind::FmlaOddTokens(FRes::Err(0x07), 1));
     for t in [0x04BCu16, 0x0221, 0x0236] { v.push(Kind::Fmla(FRes::StrVia("via".into(), false, t))); }
     v.push(Kind::Fmla(FRes::Bool(true))); v.push(Kind::Fmla(FRes::Err(0x07))); v.push(Kind::Fmla(FRes::Err(0x2A))); v.push(Kind::Fmla(FRes::EmptyStr));
     v
@@ -147,6 +152,19 @@ fn build(ch: &mut Chooser, anchor: (u16, u16), positions: &[(u16, u16)]) -> (Vec
             Kind::Label(t, wide) => { exp.insert(pos, Exp::Val(Data::String(t.into()))); cells.push(BCell::Label { r, c, xf: 0, text: t.into(), wide }); }
             Kind::Bool(b) => { exp.insert(pos, Exp::Val(Data::Bool(b))); cells.push(BCell::BoolErr { r, c, xf: 0, val: b as u8, is_err: false }); }
             Kind::Err(e) => { exp.insert(pos, Exp::Val(Data::Error(err_of(e)))); cells.push(BCell::BoolErr { r, c, xf: 0, val: e, is_err: true }); }
+            Kind::FmlaOddTokens(res, which) => {
+                let e = match &res { FRes::Num(v) => Data::Float(*v), FRes::Bool(b) => Data::Bool(*b), FRes::Err(e) => Data::Error(err_of(*e)), _ => Data::String(String::new()) };
+                exp.insert(pos, Exp::Val(e));
+                let rgce: Vec<u8> = match which {
+                    // PtgMemArea (cce of the sub-expression = 9) + two PtgRef + PtgUnion
+                    0 => vec![0x26, 0, 0, 0, 0, 11, 0, 0x24, 0, 0, 0, 0xC0, 0x24, 1, 0, 0, 0xC0, 0x10],
+                    // PtgRefN (relative reference of a shared formula / name context)
+                    1 => vec![0x2C, 1, 0, 1, 0xC0],
+                    // PtgFunc with an index outside the function table
+                    _ => vec![0x1E, 1, 0, 0x21, 0xF0, 0x7F],
+                };
+                cells.push(BCell::Formula { r, c, xf: 0, res, rgce });
+            }
             Kind::Fmla(res) => {
                 let e = match &res { FRes::Num(v) => Data::Float(*v), FRes::Str(s, _) | FRes::StrVia(s, _, _) => Data::String(s.clone()), FRes::Bool(b) => Data::Bool(*b), FRes::Err(e) => Data::Error(err_of(*e)), FRes::EmptyStr => Data::String(String::new()) };
                 exp.insert(pos, Exp::Val(e));
@@ -162,7 +180,11 @@ fn build(ch: &mut Chooser, anchor: (u16, u16), positions: &[(u16, u16)]) -> (Vec
     let lay = cfb::Layout { v4: ch.flag("cfb.v4"), ..Default::default() };
     let mut stream = workbook_stream(&book);
     if ch.flag("pad-stream-to-regular-sectors") && stream.len() < 4096 { stream.resize(4096, 0); }
-    let bytes = cfb::simple(&[("Workbook", stream)], &lay);
+    // a dual-format file carries a BIFF5 `Book` stream as well (listed first here): `Workbook` is the one to read
+    let bytes = if ch.flag("also-a-Book-stream") {
+        let other = workbook_stream(&BBook { sheets: vec![BSheet::new("S1", vec![BCell::Number { r: 9, c: 9, xf: 0, v: 99.0 }])], ..Default::default() });
+        cfb::simple(&[("Book", other), ("Workbook", stream)], &lay)
+    } else { cfb::simple(&[("Workbook", stream)], &lay) };
     (bytes, exp, json!({"cells": desc, "ignorable_records": noise}))
 }
 
@@ -221,7 +243,7 @@ fn position_sets(kmax: usize) -> Vec<Vec<(u16, u16)>> {
 }
 
 /// Shared-string tables around the 8- and 16-bit index boundaries: LABELSST carries a 32-bit index.
-fn large_sst(rep: &Report) {
+pub(crate) fn large_sst(rep: &Report) {
     let sizes = [255usize, 256, 257, 65_535, 65_536, 65_537, 66_000];
     sizes.par_iter().for_each(|n| {
         crate::engine::crumb::set_job(&format!("C02 shared-string table of {n} strings"));
